@@ -5,7 +5,8 @@ import LenaModel.Model.C14Tok
 
 Values `V`: a number is an opaque scalar, a string a string, `{"l":[..]}` a list, `{"t":[..]}` a tuple, an
 array a dictionary = its slots over the request's key alphabet `names` (`null` = key absent).
-Data: a number or an array (tuple) of data.  The getter fixture `{"tag":i}` is `x ↦ (i, x)`; the strings
+Data (`Raw`): a number, an array (tuple) of data, or `{"ctx":D}` (a dictionary inside the data).  Getter fixtures:
+`{"tag":i}` is `x ↦ (i, x)`, `{"pairw":i,"k":slot,"n":n}` is `x ↦ (x, {"w": i})`, `"first"` is `x ↦ x[0]`; the strings
 `"variable"` / `"notcallable"` stand for a getter that is a `Variable` / not callable.
 Expressions `E`:
   {"k":"var","name":V,"getter":G,"type":V,"kw":D} | {"k":"compose","args":[E..],"kw":D}
@@ -35,9 +36,8 @@ Request:
 `nk` (optional, default false): `Compose` honours its `name` keyword (notes/C14_defect_2.patch). -/
 open Lean Lena.Drv Lena.C14 Lena.C14.Tok
 
-inductive Data where
-  | int (i : Int)
-  | tuple (l : List Data)
+/-- data are raw Python values (`Model/C14.lean`: `Raw`) -/
+abbrev Data := Raw
 
 partial def toV (j : Json) : Option V :=
   match j with
@@ -68,12 +68,14 @@ def ofD (l : Slots) : Json := ofV (.dict l)
 
 partial def toData (j : Json) : Option Data :=
   match j with
-  | .arr a => (a.toList.mapM toData).map Data.tuple
-  | _ => (int? j).map Data.int
+  | .arr a => (a.toList.mapM toData).map Raw.tuple
+  | .obj _ => (toD (getD j "ctx")).map Raw.dict
+  | _ => (int? j).map Raw.int
 
 partial def ofData : Data → Json
   | .int i => ofInt i
   | .tuple l => Json.arr (l.map ofData).toArray
+  | .dict c => Json.mkObj [("ctx", ofD c)]
 
 def errName : Err → String
   | .lenaTypeError => "LenaTypeError"
@@ -84,11 +86,18 @@ def errName : Err → String
   | .attributeError => "Other:AttributeError"
   | .indexError => "Other:IndexError"
 
+/-- the getter fixtures: `{"tag":i}` is `x ↦ (i, x)`; `{"pairw":i,"k":slot}` is `x ↦ (x, {"w": i})` (data that looks
+like a `(data, context)` pair; `k` = the slot of `"w"`, `n` slots); `"first"` is `x ↦ x[0]` for a non-empty tuple, else `x` -/
 def toGetter (j : Json) : Option (GetterArg Data) :=
   match j with
   | .str "variable" => some .variable
   | .str "notcallable" => some .notCallable
-  | _ => (int? (getD j "tag")).map (fun i => .fn (fun x => Data.tuple [Data.int i, x]))
+  | .str "first" => some (.fn (fun x => match x with | .tuple (a :: _) => a | y => y))
+  | _ =>
+    match int? (getD j "tag"), int? (getD j "pairw"), nat? (getD j "k"), nat? (getD j "n") with
+    | some i, _, _, _ => some (.fn (fun x => Raw.tuple [Raw.int i, x]))
+    | _, some i, some k, some n => some (.fn (fun x => Raw.tuple [x, Raw.dict (setSlot (emptyD n) k (some (.int i)))]))
+    | _, _, _, _ => none
 
 partial def toExpr (j : Json) : Option (Expr Data) :=
   match str? (getD j "k") with
@@ -107,11 +116,13 @@ partial def toExpr (j : Json) : Option (Expr Data) :=
     | _, _ => none
   | _ => none
 
+/-- a flow value: `{"d":data,"c":D}` is the tuple `(data, context)`; `{"d":data}` is the raw value `data`, which
+`get_data_context` may itself read as a pair (`rawValue`, the transcription of `_has_context`) -/
 def toValue (j : Json) : Option (Value Data) :=
   match toData (getD j "d") with
   | none => none
   | some d =>
-    if (getD j "c").isNull then some (.bare d)
+    if (getD j "c").isNull then some (rawValue d)
     else (toD (getD j "c")).map (Value.pair d)
 
 /-! values with identities: `{"t":[..]}` a tuple, `{"l":[..],"k":tok}` a list, `{"d":[slots..],"k":tok}` a dictionary -/
@@ -149,7 +160,7 @@ def handle (j : Json) : Json :=
           (arr? (getD j "vals")).bind (fun a => a.toList.mapM toValue) with
     | some names, some fx, some exprs, some vals =>
       let nk := (bool? (getD j "nk")).getD false
-      match evalArgs names fx nk Data.tuple exprs with
+      match evalArgs names fx nk Raw.tuple exprs with
       | .error e => Json.mkObj [("e", errName e), ("phase", "init")]
       | .ok as =>
         -- an object that is not a Variable cannot be applied: the harness never sends one at top level
@@ -171,7 +182,7 @@ def handle (j : Json) : Json :=
             let ctxs := vars.map Variable.varCtx
             let wfl := vals.map (fun x => chainWFb names (cvarOf names x) ctxs)
             let cok := vals.map (fun x => Json.bool (chainOKb names (cvarOf names x) exprs))
-            let sdata := vals.map (fun x => ofData (composeData Data.tuple exprs (getDataContext names x).1))
+            let sdata := vals.map (fun x => ofData (composeData Raw.tuple exprs (getDataContext names x).1))
             let sup := (vals.zip wfl).map (fun (x, w) =>
               if w then ofD (ctxs.foldl (UP names) (preDict names (cvarOf names x))) else Json.null)
             let leaves := exprs.filterMap Expr.asLeaf
@@ -189,7 +200,7 @@ def handle (j : Json) : Json :=
           toExpr (getD j "expr"), arr? (getD j "ops") with
     | some names, some fx, some e, some ops =>
       let nk := (bool? (getD j "nk")).getD false
-      match evalExpr names fx nk Data.tuple e with
+      match evalExpr names fx nk Raw.tuple e with
       | .error er => Json.mkObj [("e", errName er), ("phase", "init")]
       | .ok none => err "attr: expression is not a Variable"
       | .ok (some v0) =>
@@ -197,7 +208,7 @@ def handle (j : Json) : Json :=
         let subs : Option (List (Variable Data)) :=
           match e with
           | .combine args _ =>
-            match evalArgs names fx nk Data.tuple args with
+            match evalArgs names fx nk Raw.tuple args with
             | .ok as => some (as.filterMap id)
             | .error _ => none
           | _ => none
@@ -232,7 +243,7 @@ def handle (j : Json) : Json :=
               -- the var_context `Compose` would have with notes/C14_defect_2.patch (`mkComposeN`), whatever the tree does
               (v, out ++ [match e with
                 | .compose args kw =>
-                  match evalArgs names fx nk Data.tuple args with
+                  match evalArgs names fx nk Raw.tuple args with
                   | .ok as =>
                     match mkComposeN names fx as kw with
                     | .ok c => Json.mkObj [("vc", ofD c.varCtx)]
@@ -248,7 +259,7 @@ def handle (j : Json) : Json :=
           (arr? (getD j "exprs")).bind (fun a => a.toList.mapM toExpr), toValue (getD j "val"), nat? (getD j "reps") with
     | some names, some fx, some es, some x, some reps =>
       let nk := (bool? (getD j "nk")).getD false
-      match evalArgs names fx nk Data.tuple es with
+      match evalArgs names fx nk Raw.tuple es with
       | .error er => Json.mkObj [("e", errName er), ("phase", "init")]
       | .ok as =>
         if !as.all Option.isSome then err "tok: an expression is not a Variable" else
